@@ -151,3 +151,161 @@ package ledger
 //@ func (s *DeletedMetadata) UnmarshalJSON(data []byte) (err error)
 //@   property C38
 //@   modifies s
+
+// ---- volumes.go: post-commit volumes (C03) -----------------------------------------------------------
+
+//@ function pcvHas(a PostCommitVolumes, acc string, x string) bool = has(a, acc) && has(a[acc], x)
+//@ function pcvIn(a PostCommitVolumes, acc string, x string) int = val(a[acc][x].Input)
+//@ function pcvOut(a PostCommitVolumes, acc string, x string) int = val(a[acc][x].Output)
+//@ function pcvSet(a PostCommitVolumes, acc string, x string) bool = a[acc] != nil && a[acc][x].Input != nil && a[acc][x].Output != nil
+//@ define wfPCV(a PostCommitVolumes) bool = forall acc string, x string :: {pcvHas(a, acc, x)} {has(a[acc], x)} pcvHas(a, acc, x) ==> pcvSet(a, acc, x)
+
+//@ func (v Volumes) Copy() (r Volumes)
+//@   property C03
+//@   requires v.Input != nil && v.Output != nil
+//@   ensures r.Input != nil && r.Output != nil && val(r.Input) == val(v.Input) && val(r.Output) == val(v.Output)
+
+//@ func (v Volumes) copy() (r Volumes)
+//@   property C03
+//@   requires v.Input != nil && v.Output != nil
+//@   ensures r.Input != nil && r.Output != nil && val(r.Input) == val(v.Input) && val(r.Output) == val(v.Output)
+
+//@ func (v Volumes) Balance() (r *big.Int)
+//@   property C02 C36
+//@   requires v.Input != nil && v.Output != nil
+//@   ensures r != nil && val(r) == val(v.Input) - val(v.Output)
+
+//@ func (v VolumesByAssets) copy() (ret VolumesByAssets)
+//@   property C03
+//@   requires forall x string :: {has(v, x)} has(v, x) ==> v[x].Input != nil && v[x].Output != nil
+//@   ensures ret != nil
+//@   ensures forall x string :: {has(ret, x)} {has(v, x)} has(ret, x) == has(v, x)
+//@   ensures forall x string :: {has(ret, x)} {has(v, x)} has(v, x) ==> ret[x].Input != nil && ret[x].Output != nil && val(ret[x].Input) == val(v[x].Input) && val(ret[x].Output) == val(v[x].Output)
+//@   loop 1:
+//@     invariant ret != nil
+//@     invariant forall x string :: {has(ret, x)} {has(v, x)} has(ret, x) == (has(v, x) && visited[x])
+//@     invariant forall x string :: {has(ret, x)} {has(v, x)} has(ret, x) ==> ret[x].Input != nil && ret[x].Output != nil && val(ret[x].Input) == val(v[x].Input) && val(ret[x].Output) == val(v[x].Output)
+
+//@ func (a PostCommitVolumes) Copy() (ret PostCommitVolumes)
+//@   property C03
+//@   requires wfPCV(a)
+//@   ensures ret != nil && wfPCV(ret)
+//@   ensures forall acc string, x string :: {pcvHas(ret, acc, x)} {pcvHas(a, acc, x)} pcvHas(ret, acc, x) == pcvHas(a, acc, x)
+//@   ensures forall acc string, x string :: {pcvIn(ret, acc, x)} {pcvIn(a, acc, x)} pcvHas(a, acc, x) ==> pcvIn(ret, acc, x) == pcvIn(a, acc, x)
+//@   ensures forall acc string, x string :: {pcvOut(ret, acc, x)} {pcvOut(a, acc, x)} pcvHas(a, acc, x) ==> pcvOut(ret, acc, x) == pcvOut(a, acc, x)
+//@   loop 1:
+//@     mention pcvHas(a, key, key)
+//@     invariant ret != nil && wfPCV(ret)
+//@     invariant forall acc string, x string :: {pcvHas(ret, acc, x)} {pcvHas(a, acc, x)} pcvHas(ret, acc, x) == (pcvHas(a, acc, x) && visited[acc])
+//@     invariant forall acc string, x string :: {pcvIn(ret, acc, x)} {pcvIn(a, acc, x)} pcvHas(ret, acc, x) ==> pcvIn(ret, acc, x) == pcvIn(a, acc, x)
+//@     invariant forall acc string, x string :: {pcvOut(ret, acc, x)} {pcvOut(a, acc, x)} pcvHas(ret, acc, x) ==> pcvOut(ret, acc, x) == pcvOut(a, acc, x)
+
+//@ func (a PostCommitVolumes) AddInput(account string, asset string, input *big.Int)
+//@   property C03
+//@   requires input != nil && a != nil && wfPCV(a) && pcvHas(a, account, asset)
+//@   modifies a
+//@   ensures a != nil && wfPCV(a)
+//@   ensures pcvIn(a, account, asset) == pcvIn(old(a), account, asset) + val(input) && pcvOut(a, account, asset) == pcvOut(old(a), account, asset)
+//@   ensures forall acc string, x string :: {pcvHas(a, acc, x)} {pcvHas(old(a), acc, x)} pcvHas(a, acc, x) == pcvHas(old(a), acc, x)
+//@   ensures forall acc string, x string :: {pcvIn(a, acc, x)} {pcvIn(old(a), acc, x)} (acc != account || x != asset) ==> pcvIn(a, acc, x) == pcvIn(old(a), acc, x)
+//@   ensures forall acc string, x string :: {pcvOut(a, acc, x)} {pcvOut(old(a), acc, x)} (acc != account || x != asset) ==> pcvOut(a, acc, x) == pcvOut(old(a), acc, x)
+
+//@ func (a PostCommitVolumes) AddOutput(account string, asset string, output *big.Int)
+//@   property C03
+//@   requires output != nil && a != nil && wfPCV(a) && pcvHas(a, account, asset)
+//@   modifies a
+//@   ensures a != nil && wfPCV(a)
+//@   ensures pcvOut(a, account, asset) == pcvOut(old(a), account, asset) + val(output) && pcvIn(a, account, asset) == pcvIn(old(a), account, asset)
+//@   ensures forall acc string, x string :: {pcvHas(a, acc, x)} {pcvHas(old(a), acc, x)} pcvHas(a, acc, x) == pcvHas(old(a), acc, x)
+//@   ensures forall acc string, x string :: {pcvIn(a, acc, x)} {pcvIn(old(a), acc, x)} (acc != account || x != asset) ==> pcvIn(a, acc, x) == pcvIn(old(a), acc, x)
+//@   ensures forall acc string, x string :: {pcvOut(a, acc, x)} {pcvOut(old(a), acc, x)} (acc != account || x != asset) ==> pcvOut(a, acc, x) == pcvOut(old(a), acc, x)
+
+//@ define postingsCovered(a PostCommitVolumes, ps []Posting) bool = forall i int :: {ps[i]} 0 <= i && i < len(ps) ==> ps[i].Amount != nil && pcvHas(a, ps[i].Source, ps[i].Asset) && pcvHas(a, ps[i].Destination, ps[i].Asset)
+
+//@ func (a PostCommitVolumes) SubtractPostings(postings Postings) (ret PostCommitVolumes)
+//@   property C03
+//@   requires wfPCV(a) && postingsCovered(a, postings)
+//@   ensures len(a) == 0 ==> len(ret) == 0
+//@   ensures len(a) != 0 ==> ret != nil && wfPCV(ret)
+//@   ensures len(a) != 0 ==> forall acc string, x string :: {pcvHas(ret, acc, x)} {pcvHas(a, acc, x)} pcvHas(ret, acc, x) == pcvHas(a, acc, x)
+//@   ensures len(a) != 0 ==> forall acc string, x string :: {pcvIn(ret, acc, x)} {pcvIn(a, acc, x)} pcvHas(a, acc, x) ==> pcvIn(ret, acc, x) == pcvIn(a, acc, x) - credits(postings, acc, x)
+//@   ensures len(a) != 0 ==> forall acc string, x string :: {pcvOut(ret, acc, x)} {pcvOut(a, acc, x)} pcvHas(a, acc, x) ==> pcvOut(ret, acc, x) == pcvOut(a, acc, x) - debits(postings, acc, x)
+//@   loop 1:
+//@     index k
+//@     mention pcvHas(a, posting.Source, posting.Asset)
+//@     mention pcvHas(a, posting.Destination, posting.Asset)
+//@     invariant ret != nil && wfPCV(ret)
+//@     invariant forall acc string, x string :: {pcvHas(ret, acc, x)} {pcvHas(a, acc, x)} pcvHas(ret, acc, x) == pcvHas(a, acc, x)
+//@     invariant forall acc string, x string :: {pcvIn(ret, acc, x)} {pcvIn(a, acc, x)} pcvHas(a, acc, x) ==> pcvIn(ret, acc, x) == pcvIn(a, acc, x) - credits_upto(postings, k, acc, x)
+//@     invariant forall acc string, x string :: {pcvOut(ret, acc, x)} {pcvOut(a, acc, x)} pcvHas(a, acc, x) ==> pcvOut(ret, acc, x) == pcvOut(a, acc, x) - debits_upto(postings, k, acc, x)
+
+// ---- ledger.go: feature switches (C35) ------------------------------------------------------------
+
+//@ declare validFeature(feature string, value string) bool
+//@ axiom validFeature("MOVES_HISTORY", "ON") && validFeature("MOVES_HISTORY", "OFF")
+//@ axiom validFeature("MOVES_HISTORY_POST_COMMIT_EFFECTIVE_VOLUMES", "SYNC") && validFeature("MOVES_HISTORY_POST_COMMIT_EFFECTIVE_VOLUMES", "DISABLED")
+//@ axiom validFeature("HASH_LOGS", "SYNC") && validFeature("HASH_LOGS", "ASYNC") && validFeature("HASH_LOGS", "DISABLED")
+//@ axiom validFeature("ACCOUNT_METADATA_HISTORY", "SYNC") && validFeature("ACCOUNT_METADATA_HISTORY", "DISABLED")
+//@ axiom validFeature("TRANSACTION_METADATA_HISTORY", "SYNC") && validFeature("TRANSACTION_METADATA_HISTORY", "DISABLED")
+
+//@ assumed func features.ValidateFeatureWithValue(feature string, value string) (err error)
+//@   ensures (err == nil) == validFeature(feature, value)
+
+//@ func (l Ledger) HasFeature(feature string, value string) (r bool)
+//@   property C35
+//@   requires validFeature(feature, value)
+//@   ensures r == (l.Features[feature] == value)
+
+// ---- transaction.go: VolumeUpdates (C01, C02) -----------------------------------------------------------
+// The per-(account, asset) delta handed to the volumes upsert is exactly (credits, debits) of the postings.
+
+//@ nnfold countUpd(s []AccountsVolumes, acc string, x string) = (e.Account == acc && e.Asset == x) ? 1 : 0
+//@ nnfold badUpd(s []AccountsVolumes, ps []Posting) = (e.Input != nil && e.Output != nil && val(e.Input) == credits(ps, e.Account, e.Asset) && val(e.Output) == debits(ps, e.Account, e.Asset)) ? 0 : 1
+//@ nnfold offAsset(ps []Posting, x string) = e.Asset == x ? 0 : 1
+//@ function aggHas(m map[string]map[string][]Posting, acc string, x string) bool = has(m, acc) && has(m[acc], x)
+
+//@ assumed func slices.SortStableFunc(x []AccountsVolumes, cmp func(a AccountsVolumes, b AccountsVolumes) int)
+//@   modifies x
+//@   ensures len(x) == len(old(x))
+//@   ensures forall acc string, a string :: {countUpd(x, acc, a)} {countUpd(old(x), acc, a)} countUpd(x, acc, a) == countUpd(old(x), acc, a)
+//@   ensures forall ps []Posting :: {badUpd(x, ps)} {badUpd(old(x), ps)} badUpd(x, ps) == badUpd(old(x), ps)
+
+//@ func NewVolumesInt64(input int64, output int64) (r Volumes)
+//@   property C01 C02
+//@   ensures r.Input != nil && r.Output != nil && val(r.Input) == input && val(r.Output) == output
+
+//@ func NewEmptyVolumes() (r Volumes)
+//@   property C01 C02
+//@   ensures r.Input != nil && r.Output != nil && val(r.Input) == 0 && val(r.Output) == 0
+
+//@ func (tx Transaction) VolumeUpdates() (ret []AccountsVolumes)
+//@   property C01 C02 C03
+//@   requires amountsNonNil(tx.Postings)
+//@   ensures badUpd(ret, tx.Postings) == 0
+//@   ensures forall i int :: {tx.Postings[i]} 0 <= i && i < len(tx.Postings) ==> countUpd(ret, tx.Postings[i].Source, tx.Postings[i].Asset) > 0 && countUpd(ret, tx.Postings[i].Destination, tx.Postings[i].Asset) > 0
+//@   loop 1:
+//@     index k
+//@     mention aggHas(aggregatedVolumes, posting.Source, posting.Asset)
+//@     mention aggHas(aggregatedVolumes, posting.Destination, posting.Asset)
+//@     invariant aggregatedVolumes != nil
+//@     invariant forall acc string :: {has(aggregatedVolumes, acc)} has(aggregatedVolumes, acc) ==> aggregatedVolumes[acc] != nil
+//@     invariant forall i int :: {tx.Postings[i]} 0 <= i && i < k ==> aggHas(aggregatedVolumes, tx.Postings[i].Source, tx.Postings[i].Asset) && aggHas(aggregatedVolumes, tx.Postings[i].Destination, tx.Postings[i].Asset)
+//@     invariant forall acc string, x string :: {aggHas(aggregatedVolumes, acc, x)} {aggregatedVolumes[acc][x]} aggHas(aggregatedVolumes, acc, x) ==> offAsset(aggregatedVolumes[acc][x], x) == 0 && amountsNonNil(aggregatedVolumes[acc][x])
+//@     invariant forall acc string, x string :: {aggHas(aggregatedVolumes, acc, x)} {credits_upto(tx.Postings, k, acc, x)} aggHas(aggregatedVolumes, acc, x) ==> credits(aggregatedVolumes[acc][x], acc, x) == credits_upto(tx.Postings, k, acc, x)
+//@     invariant forall acc string, x string :: {aggHas(aggregatedVolumes, acc, x)} {debits_upto(tx.Postings, k, acc, x)} aggHas(aggregatedVolumes, acc, x) ==> debits(aggregatedVolumes[acc][x], acc, x) == debits_upto(tx.Postings, k, acc, x)
+//@     invariant forall acc string, x string :: {aggHas(aggregatedVolumes, acc, x)} {credits_upto(tx.Postings, k, acc, x)} !aggHas(aggregatedVolumes, acc, x) ==> credits_upto(tx.Postings, k, acc, x) == 0
+//@     invariant forall acc string, x string :: {aggHas(aggregatedVolumes, acc, x)} {debits_upto(tx.Postings, k, acc, x)} !aggHas(aggregatedVolumes, acc, x) ==> debits_upto(tx.Postings, k, acc, x) == 0
+//@   loop 2:
+//@     visited va
+//@     invariant badUpd(ret, tx.Postings) == 0 && len(ret) >= 0
+//@     invariant forall acc string, x string :: {aggHas(aggregatedVolumes, acc, x)} (va[acc] && aggHas(aggregatedVolumes, acc, x)) ==> countUpd(ret, acc, x) > 0
+//@   loop 3:
+//@     visited vx
+//@     mention aggHas(aggregatedVolumes, account, asset)
+//@     invariant badUpd(ret, tx.Postings) == 0 && len(ret) >= 0
+//@     invariant forall acc string, x string :: {aggHas(aggregatedVolumes, acc, x)} (va[acc] && aggHas(aggregatedVolumes, acc, x)) ==> countUpd(ret, acc, x) > 0
+//@     invariant forall x string :: {aggHas(aggregatedVolumes, account, x)} (vx[x] && aggHas(aggregatedVolumes, account, x)) ==> countUpd(ret, account, x) > 0
+//@   loop 4:
+//@     index j
+//@     invariant volumes.Input != nil && volumes.Output != nil
+//@     invariant offAsset_upto(postings, j, asset) == 0 ==> val(volumes.Input) == credits_upto(postings, j, account, asset) && val(volumes.Output) == debits_upto(postings, j, account, asset)
